@@ -51,7 +51,7 @@ theorem reportChain_eval (s : Sess) (t : Nat) (r : Raised) :
          if isGen s.tasks t then addReport s t .success
          else
            let u := updateStates (toProject s.tasks) s.g s.w t (neighbours s.g t)
-           if u.2 then addReport { s with w := u.1 } t .success else { s with w := u.1, crashed := true }
+           if u.2 then addReport { s with w := u.1 } t .success else { s with crashed := true }
        | _ => { addReport s t .fail with failMarks := s.failMarks ++ taskDesc s.g t }) := by
   simp only [Generated.processReportOrder, reportChain, reportImpl, String.reduceBEq, Bool.false_eq_true, if_false, if_true,
     Generated.provisionalReportKeepsStates, Generated.processReportOrderFirstResult, Bool.and_true]
